@@ -397,3 +397,18 @@ func init() {
 		return &BadTag{Name: strN(v % 3), Code: strN(v % 2), Age: v % 4, Note: strN(v % 2)}
 	}, []string{"", "v2"}})
 }
+
+// DupTag: struct tags that repeat a key inside one field literal (legal Go; only vet objects). reflect.StructTag.Get
+// returns the FIRST occurrence; code that scans the literal itself may keep another one (seeded C08x stored sibling
+// cache entries from a hand-copied scanner that kept the last).
+type DupTag struct {
+	Name string `valid:"required" v2:"required" v2:"to=5~10"`
+	Code string `valid:"le=2" json:"code" valid:"ge=9"`
+	Age  int    `v2:"ge=3" json:"age" v2:"le=1" valid:"to=1~3" valid:"ge=100"`
+}
+
+func init() {
+	statics = append(statics, typeInfo{"DupTag", func(v int) interface{} {
+		return &DupTag{Name: strN(v % 4), Code: strN((v / 2) % 4), Age: v % 6}
+	}, []string{"", "v2"}})
+}
